@@ -203,7 +203,23 @@ def _views_body(params, spec, d, kt, vt, mck, inactive, flat, compact):
   return aligned(d, spec, 'enumerated')
 
 
-CHAIN = ['next', 'random', 'parse', 'clone', 'json', 'uniform', 'swap', 'uniform_swap', 'crossover_uniform', 'crossover_kpoint']
+CHAIN = ['next', 'random', 'parse', 'clone', 'json', 'uniform', 'swap', 'uniform_swap', 'crossover_uniform', 'crossover_kpoint',
+         'permute']
+
+
+def _rotate_first_multichoice(node, k, done):
+  """A DNA assembled (public constructor) from the *bound* sub-choice nodes of `node` in rotated order: what a hand-written
+  swap-like operator does before it hands the result to `use_spec`."""
+  ch = list(node.children)
+  if not done and len(ch) > 1 and all(c.spec is not None and getattr(c.spec, 'is_subchoice', False) for c in ch):
+    k = k % len(ch)
+    if k:
+      done.append(k)
+      return pg.DNA(node.value, ch[k:] + ch[:k])
+  if not ch:
+    return node
+  new = [_rotate_first_multichoice(c, k, done) for c in ch]
+  return pg.DNA(node.value, new) if done else node
 
 
 def h_chain(params, n, n2, op, rng, warm=False):
@@ -225,6 +241,7 @@ def h_chain(params, n, n2, op, rng, warm=False):
   before_numbers = d.to_numbers()
   e = dnas[reps[concretize(n2, range(len(reps)))]] if name.startswith('crossover') else None
   warm = bool(params['warm']) if params.get('warm') is not None else bool(warm)
+  rot = 1 + concretize(n2, range(3)) if name == 'permute' else 0
   try:
    with untraced():       # the operators run natively; every RNG outcome stays a solver decision (SymRandom)
      # the input is a DNA of its own (nothing memoised by an earlier path), optionally used through its lookup API first
@@ -244,6 +261,15 @@ def h_chain(params, n, n2, op, rng, warm=False):
      elif name == 'json':
        r = pg.from_json(pg.to_json(d))
        r.use_spec(spec)
+     elif name == 'permute':
+       done = []
+       r = _rotate_first_multichoice(d, rot, done)
+       if not done:
+         raise Assume()
+       try:
+         r.use_spec(spec)
+       except ValueError:          # (the rotated order is not valid for a sorted multi-choice)
+         raise Assume()
      elif name == 'uniform':
        m = mutators.Uniform(seed=1)
        m._random = rng        # pylint: disable=protected-access
@@ -291,7 +317,9 @@ def shards(tier, seed):
     if name == 'with_float':
       continue
     for ops in (['next', 'random', 'parse', 'clone', 'json'], ['uniform'], ['swap', 'uniform_swap'],
-                ['crossover_uniform', 'crossover_kpoint']):
+                ['crossover_uniform', 'crossover_kpoint'], ['permute']):
+      if ops[0] == 'permute' and name not in ('multi_nested', 'unnamed', 'sorted_multi'):
+        continue                     # (no multi-choice whose rotated order is valid: the shard would be vacuous)
       mutating = ops[0] in ('uniform', 'swap')
       for warm in (((True,) if quick else (False, True)) if mutating else (False,)):
         out.append(dict(name=f'chain:{name}:{"+".join(ops)}' + (':warm' if warm else ''), fn='h_chain',
@@ -310,6 +338,6 @@ META = dict(
             'untraced); with_float: values {0, 0.5, 1}', 'operations: ' + ', '.join(CHAIN),
             'RNG: every draw a fresh solver variable in range'],
     stubs=['random.Random replaced by engine.chx.SymRandom'],
-    outside_claim=['chains longer than 2 operations', 'custom decision points', 'recombinators other than Uniform/KPoint/Sample'],
+    outside_claim=['chains longer than 2 operations', 'permute: only the first multi-choice node (DFS), rotations by 1..3', 'custom decision points', 'recombinators other than Uniform/KPoint/Sample'],
     assumptions=[],
 )
